@@ -7808,6 +7808,22 @@ let rec sx_lines f ntabs =
                                                                    ntabs))))
           ms)) items
 
+(** val xml_escape : bool -> char list -> char list **)
+
+let rec xml_escape quot = function
+| [] -> []
+| c::r ->
+  append
+    (if (=) c '&'
+     then '&'::('a'::('m'::('p'::(';'::[]))))
+     else if (=) c '<'
+          then '&'::('l'::('t'::(';'::[])))
+          else if (=) c '>'
+               then '&'::('g'::('t'::(';'::[])))
+               else if (&&) quot ((=) c '"')
+                    then '&'::('q'::('u'::('o'::('t'::(';'::[])))))
+                    else c::[]) (xml_escape quot r)
+
 (** val render_splot : splot_doc -> char list **)
 
 let render_splot d =
@@ -7816,28 +7832,31 @@ let render_splot d =
       (('<'::('?'::('x'::('m'::('l'::(' '::('v'::('e'::('r'::('s'::('i'::('o'::('n'::('='::('"'::('1'::('.'::('0'::('"'::(' '::('e'::('n'::('c'::('o'::('d'::('i'::('n'::('g'::('='::('"'::('U'::('T'::('F'::('-'::('8'::('"'::(' '::('s'::('t'::('a'::('n'::('d'::('a'::('l'::('o'::('n'::('e'::('='::('"'::('n'::('o'::('"'::('?'::('>'::[])))))))))))))))))))))))))))))))))))))))))))))))))))))) :: (
       (append
         ('<'::('f'::('e'::('a'::('t'::('u'::('r'::('e'::('_'::('m'::('o'::('d'::('e'::('l'::(' '::('n'::('a'::('m'::('e'::('='::('"'::[])))))))))))))))))))))
-        (append d.sp_model_name ('"'::('>'::[])))) :: (('<'::('f'::('e'::('a'::('t'::('u'::('r'::('e'::('_'::('t'::('r'::('e'::('e'::('>'::[])))))))))))))) :: (
-      (append (':'::('r'::(' '::[]))) (sx_label (sx_name d.sp_root))) :: []))))
-      (app (sx_lines d.sp_root (S O))
+        (append (xml_escape true d.sp_model_name) ('"'::('>'::[])))) :: (('<'::('f'::('e'::('a'::('t'::('u'::('r'::('e'::('_'::('t'::('r'::('e'::('e'::('>'::[])))))))))))))) :: [])))
+      (app
+        (map (xml_escape false)
+          ((append (':'::('r'::(' '::[]))) (sx_label (sx_name d.sp_root))) :: 
+          (sx_lines d.sp_root (S O))))
         (app
           (('<'::('/'::('f'::('e'::('a'::('t'::('u'::('r'::('e'::('_'::('t'::('r'::('e'::('e'::('>'::[]))))))))))))))) :: (('<'::('c'::('o'::('n'::('s'::('t'::('r'::('a'::('i'::('n'::('t'::('s'::('>'::[]))))))))))))) :: []))
           (app
-            (let rec go i = function
-             | [] -> []
-             | cl :: rest ->
-               (append tab
-                 (append ('C'::[])
-                   (append (z_to_string i)
-                     (append (':'::(' '::[]))
-                       (str_join (' '::('o'::('r'::(' '::[]))))
-                         (map (fun l ->
-                           if fst l
-                           then append ('~'::[]) (sx_safename (snd l))
-                           else sx_safename (snd l)) cl)))))) :: (go
-                                                                   (Z.add i
+            (map (xml_escape false)
+              (let rec go i = function
+               | [] -> []
+               | cl :: rest ->
+                 (append tab
+                   (append ('C'::[])
+                     (append (z_to_string i)
+                       (append (':'::(' '::[]))
+                         (str_join (' '::('o'::('r'::(' '::[]))))
+                           (map (fun l ->
+                             if fst l
+                             then append ('~'::[]) (sx_safename (snd l))
+                             else sx_safename (snd l)) cl)))))) :: (go
+                                                                    (Z.add i
                                                                     (Zpos XH))
-                                                                   rest)
-             in go (Zpos XH) d.sp_clauses)
+                                                                    rest)
+               in go (Zpos XH) d.sp_clauses))
             (('<'::('/'::('c'::('o'::('n'::('s'::('t'::('r'::('a'::('i'::('n'::('t'::('s'::('>'::[])))))))))))))) :: (('<'::('/'::('f'::('e'::('a'::('t'::('u'::('r'::('e'::('_'::('m'::('o'::('d'::('e'::('l'::('>'::[])))))))))))))))) :: []))))))
 
 (** val splot_text : fm -> char list result **)
